@@ -165,7 +165,7 @@ class Lift:
                 s = self.rr.read_snapshot(self.keys[u], data)
                 snaps[name] = s
                 for d in s['chunks']:
-                    digests.setdefault(d, u)
+                    digests.setdefault(d, set()).add(u)     # the same digest may be referenced from several key families
         plains = {}
         self.n_chunks = 0
         for name, data in uploads:
@@ -174,7 +174,7 @@ class Lift:
             elif name.startswith('data/'):
                 done = False
                 for u in self.keys:
-                    cands = [d for d, du in digests.items() if self.family_of(du) == self.family_of(u)]
+                    cands = [d for d, dus in digests.items() if any(self.family_of(du) == self.family_of(u) for du in dus)]
                     try:
                         loc, obj, dg = self.lifters[u].lift_chunk(name, data, cands)
                     except ValueError:
@@ -199,7 +199,7 @@ class Lift:
         known = {}
         for u in self.keys:
             for d in digests:
-                if self.family_of(digests[d]) == self.family_of(u):
+                if any(self.family_of(du) == self.family_of(u) for du in digests[d]):
                     known[self.rr.chunk_path(self.keys[u], d)] = (u, d)
         for n in names:
             if n.startswith('data/'):
